@@ -1045,6 +1045,14 @@ class Interp:
             raise Unsupported(f"call of {f.dotted}")
         if isinstance(f, VExternal):
             allargs = ([f.bound] if f.bound is not None else []) + [force(ctx, a) for a in args]
+            if f.dotted in ("str.startswith", "str.endswith") and not kwargs and len(allargs) == 2 and all(isinstance(a, VStr) for a in allargs):
+                op = "str.prefixof" if f.dotted == "str.startswith" else "str.suffixof"
+                return VBool(f"({op} {allargs[1].t} {allargs[0].t})")
+            if f.dotted in ("str.startswith", "str.endswith") and not kwargs and len(allargs) == 2 and isinstance(allargs[0], VStr) and isinstance(allargs[1], VTuple):
+                alts = [force(ctx, x) for x in allargs[1].items]
+                if all(isinstance(x, VStr) for x in alts):
+                    op = "str.prefixof" if f.dotted == "str.startswith" else "str.suffixof"
+                    return VBool(Or(*[f"({op} {x.t} {allargs[0].t})" for x in alts]))
             if (f.dotted in PURE_STR_FUNCS or (f.dotted.startswith("str.") and f.bound is not None)) and not kwargs and allargs and all(isinstance(a, VStr) for a in allargs):
                 nm = "uf_" + f.dotted.replace(".", "_")
                 lits = [a.t for a in allargs[1:]]
@@ -1474,7 +1482,9 @@ class Interp:
             if isinstance(a, (VInt, VBool)) and isinstance(b, (VInt, VBool)):
                 return VInt(smt.Add(num_term(a)[1], num_term(b)[1]))
             if isinstance(a, VList) and isinstance(b, VList):
-                return VList(a.items + b.items)
+                lst = VList(a.items + b.items)
+                ctx.ghost.setdefault("own_lists", {})[id(lst)] = lst  # `+` builds a new list on this path
+                return lst
             if isinstance(a, VTuple) and isinstance(b, VTuple):
                 return VTuple(a.items + b.items)
         if isinstance(op, ast.Sub):
